@@ -36,6 +36,9 @@ type Link struct {
 	eofWithData bool
 	wantRead    int
 	oneByteMax  int
+	script      []int // fragMode 3: k-th read returns script[k] bytes (then everything)
+	scriptPos   int
+	eofFixed    int // fragMode 3: 1 = deliver EOF together with the last data, 0 = separately
 
 	// context-done knowledge for predicates
 	ctxd *CtxDone
@@ -164,6 +167,18 @@ func (p *readPred) Param(t *core.Tape) int {
 		if l.oneByteMax > 0 && l.rd >= l.oneByteMax {
 			k = n
 		}
+	case 3:
+		if l.scriptPos < len(l.script) {
+			k = l.script[l.scriptPos]
+			l.scriptPos++
+		}
+		if k < 1 {
+			k = 1
+		}
+		if k > n {
+			k = n
+		}
+		return k<<1 | l.eofFixed
 	}
 	if k < 1 {
 		k = 1
@@ -398,3 +413,16 @@ func (l *Link) SetCtx(c *CtxDone) { l.ctxd = c }
 
 // SpacePred is ready when the link has window space or is aborted.
 func (l *Link) SpacePred() core.Pred { return &l.wp }
+
+// SetScript makes reads return exactly the scripted fragment sizes.
+func (l *Link) SetScript(script []int, eofWithData bool) {
+	l.mu.Lock()
+	l.fragMode = 3
+	l.script = script
+	l.scriptPos = 0
+	l.eofFixed = 0
+	if eofWithData {
+		l.eofFixed = 1
+	}
+	l.mu.Unlock()
+}
